@@ -394,7 +394,7 @@ class Ctx:
         os.makedirs(cdir, exist_ok=True)
         files = []
         for k in range(0, len(exprs), per_file):
-            fn = os.path.join(cdir, f"{self.prop}_{name}_{k//per_file}.v")
+            fn = os.path.join(cdir, f"{self.prop}_{name}_p{os.getpid()}_{k//per_file}.v")
             body = [header]
             for e in exprs[k:k + per_file]:
                 body.append(f"Eval vm_compute in ({e}).")
@@ -414,7 +414,7 @@ class Ctx:
                 self.broke("C", f"cases {name}", f"coqc {fn} failed:\n{out[-2000:]}")
                 return None
             results += split_evals(out)
-            for ext in (".vo", ".glob", ".vok", ".vos"):
+            for ext in (".vo", ".glob", ".vok", ".vos", ".v"):
                 try:
                     os.remove(fn[:-2] + ext)
                 except OSError:
@@ -525,10 +525,23 @@ def build_extracted(name: str, extract_v: str, driver_ml: str, timeout: float = 
 # ---------------------------------------------------------------- known findings / verdict
 
 def load_known() -> list[dict[str, Any]]:
+    """known_findings.json (committed, never written at run time).
+
+    VERIF_KNOWN_EXTRA=<file> merges a list of {"property"?, "key", "what"} entries: used only while
+    DEVELOPING a check, before its findings are reviewed and copied into known_findings.json."""
     p = os.path.join(VERIF, "known_findings.json")
-    if not os.path.exists(p):
-        return []
-    return json.load(open(p))["findings"]
+    out: list[dict[str, Any]] = []
+    if os.path.exists(p):
+        out = list(json.load(open(p))["findings"])
+    extra = os.environ.get("VERIF_KNOWN_EXTRA")
+    if extra and os.path.exists(extra):
+        m = re.search(r"(C\d\d)", os.path.basename(extra))
+        for e in json.load(open(extra)):
+            e = dict(e)
+            e.setdefault("property", m.group(1) if m else "")
+            e.setdefault("status", "known")
+            out.append(e)
+    return out
 
 
 def finish(ctx: Ctx) -> int:
